@@ -358,7 +358,13 @@ def _replay_rules(facts, R):
                     if is_call(v, "saturating_add", "checked_add", "wrapping_add") or (v[0] == "bin" and v[1].startswith("Add")) or \
                             (v[0] == "field" and v[1][0] == "bin" and v[1][1].startswith("Add")):
                         args = v[2] if v[0] == "call" else (v[2], v[3]) if v[0] == "bin" else (v[1][2], v[1][3])
-                        if any(_is_f(a, "bytes_held") for a in args) and any(is_call(a, "len") and a[2][0][0] == "arg" and a[2][0][1] == 5 for a in args):
+                        def _unboxed(e):
+                            # Arc::new(v) / Box::new(v) / a clone: the same bytes, the same length
+                            while e[0] == "call" and len(e[2]) == 1 and (e[1].rsplit("::", 1)[-1] in ("clone", "as_ref", "deref", "as_slice") or
+                                                                            (e[1].rsplit("::", 1)[-1] == "new" and any(k_ in e[1] for k_ in ("Arc", "Rc", "Box")))):
+                                e = e[2][0]
+                            return e
+                        if any(_is_f(a, "bytes_held") for a in args) and any(is_call(a, "len") and _unboxed(a[2][0])[0] == "arg" and _unboxed(a[2][0])[1] == 5 for a in args):
                             adds.append((w2["bb"], w2["idx"]))
             wp = must_cross(b, [term_pt(b, i)], return_points(b), adds)
             R.check(adds and wp is None, "evict-discipline", b.path, "push_back paired with bytes_held += len(body)",
